@@ -710,6 +710,9 @@ type asmOutcome struct {
 // the domain are skipped (each one costs a full deadline and leaves a spinning goroutine behind)
 var asmTimeouts int
 
+// asmLeaks counts cases after which a goroutine was still alive
+var asmLeaks int
+
 const asmDeadline = 3 * time.Second
 
 func runAsmFull(cfg gmars.SimulatorConfig, text []byte) asmOutcome {
@@ -734,15 +737,26 @@ func runAsmFull(cfg gmars.SimulatorConfig, text []byte) asmOutcome {
 	g := 0
 	if f == "" {
 		// producers finish right after the consumer got the last token; give them a moment
-		for i := 0; i < 60; i++ {
+		// on correct code this loop ends at once; give a loaded machine up to a second before
+		// calling a goroutine "left behind" (after a few confirmed leaks the wait is cut short)
+		limit := 1000
+		if asmLeaks >= 5 {
+			limit = 20
+		}
+		for i := 0; i < limit; i++ {
 			g = runtime.NumGoroutine() - before
 			if g <= 0 {
 				break
 			}
-			time.Sleep(50 * time.Microsecond)
-			if i > 20 {
+			if i < 20 {
+				runtime.Gosched()
+				time.Sleep(50 * time.Microsecond)
+			} else {
 				time.Sleep(time.Millisecond)
 			}
+		}
+		if g > 0 {
+			asmLeaks++
 		}
 	}
 	return asmOutcome{res, g}
